@@ -117,8 +117,9 @@ type Opaque struct {
 }
 
 var (
-	opaqueMu   sync.Mutex
-	opaqueSeen = map[string]string{}
+	opaqueMu    sync.Mutex
+	opaqueSeen  = map[string]string{}
+	opaqueOwner = map[string]string{}
 )
 
 func (o Opaque) matches(got any) bool {
@@ -141,7 +142,14 @@ func (o Opaque) matches(got any) bool {
 	if prev, ok := opaqueSeen[o.Key]; ok {
 		return prev == s
 	}
+	// ... and two different specification values are not matched by one string: ENCODE is invertible, and a digest
+	// shared by two of the few dozen values of the domain is not a collision but an answer that belongs to the other
+	// value (a result that depends on what was computed before)
+	if other, ok := opaqueOwner[o.Kind+"\x00"+s]; ok && other != o.Key {
+		return false
+	}
 	opaqueSeen[o.Key] = s
+	opaqueOwner[o.Kind+"\x00"+s] = o.Key
 	return true
 }
 
